@@ -9,7 +9,16 @@ import SimplicityModel.Sha2
 namespace Prog
 open Sha2
 
-def tag (s : String) : Nat := tagIV (strBytes s)
+/-- SHA-256 of a tag string, as a 256-bit natural -/
+def tagHash (s : String) : Nat := natOfBytes (sha256 (strBytes s))
+
+/-- the midstate after the block `h ‖ h` -/
+def ivOfHash (h : Nat) : Nat := update2 (natOfState H0) h h
+
+/-- BIP-340 tagged-hash midstate of a tag string -/
+def tag (s : String) : Nat := ivOfHash (tagHash s)
+
+theorem tag_eq_tagIV (s : String) : tag s = tagIV (strBytes s) := rfl
 
 /-! commitment roots -/
 def cmrIV (name : String) : Nat := tag ("Simplicity\x1fCommitment\x1f" ++ name)
@@ -63,32 +72,49 @@ def cmrWord (n : Nat) (bits : List Bool) : Nat :=
 
 def failBlock (e : List Nat) : Nat × Nat := (natOfBytes (e.take 32), natOfBytes (e.drop 32))
 
-/-- commitment root of one node from the roots of its children -/
-def cmrNode (jetCmr : String → Option Nat) (cm : Nat → Nat) : Node → Option Nat
-  | .iden => some ivIden
-  | .unit => some ivUnit
-  | .injl c => some (update2 ivInjl 0 (cm c))
-  | .injr c => some (update2 ivInjr 0 (cm c))
-  | .take c => some (update2 ivTake 0 (cm c))
-  | .drop c => some (update2 ivDrop 0 (cm c))
-  | .comp a b => some (update2 ivComp (cm a) (cm b))
-  | .case a b => some (update2 ivCase (cm a) (cm b))
-  | .pair a b => some (update2 ivPair (cm a) (cm b))
-  | .assertl a h => some (update2 ivCase (cm a) h)
-  | .assertr h b => some (update2 ivCase h (cm b))
-  | .disconnect a _ => some (update2 ivDisconnect 0 (cm a))
-  | .witness => some ivWitness
-  | .fail e => let (l, r) := failBlock e; some (update2 ivFail l r)
-  | .word n bits => some (cmrWord n bits)
+/-- commitment root of one node from the roots of its children, over an arbitrary compression
+step `upd iv left right`, IV table `ivn` (by combinator name) and word-root function -/
+def cmrNodeG (upd : Nat → Nat → Nat → Nat) (ivn : String → Nat) (wordCmr : Nat → List Bool → Nat)
+    (jetCmr : String → Option Nat) (cm : Nat → Nat) : Node → Option Nat
+  | .iden => some (ivn "iden")
+  | .unit => some (ivn "unit")
+  | .injl c => some (upd (ivn "injl") 0 (cm c))
+  | .injr c => some (upd (ivn "injr") 0 (cm c))
+  | .take c => some (upd (ivn "take") 0 (cm c))
+  | .drop c => some (upd (ivn "drop") 0 (cm c))
+  | .comp a b => some (upd (ivn "comp") (cm a) (cm b))
+  | .case a b => some (upd (ivn "case") (cm a) (cm b))
+  | .pair a b => some (upd (ivn "pair") (cm a) (cm b))
+  | .assertl a h => some (upd (ivn "case") (cm a) h)
+  | .assertr h b => some (upd (ivn "case") h (cm b))
+  | .disconnect a _ => some (upd (ivn "disconnect") 0 (cm a))
+  | .witness => some (ivn "witness")
+  | .fail e => some (upd (ivn "fail") (failBlock e).1 (failBlock e).2)
+  | .word n bits => some (wordCmr n bits)
   | .jet name => jetCmr name
   | .hidden h => some h
 
-def cmrsGo (jetCmr : String → Option Nat) : List Node → Array Nat → Option (Array Nat)
+/-- the IVs, computed once -/
+def ivTable (s : String) : Nat :=
+  if s = "iden" then ivIden else if s = "unit" then ivUnit else if s = "injl" then ivInjl
+  else if s = "injr" then ivInjr else if s = "take" then ivTake else if s = "drop" then ivDrop
+  else if s = "comp" then ivComp else if s = "case" then ivCase else if s = "pair" then ivPair
+  else if s = "disconnect" then ivDisconnect else if s = "witness" then ivWitness
+  else if s = "fail" then ivFail else cmrIV s
+
+/-- commitment root of one node with SHA-256 -/
+def cmrNode (jetCmr : String → Option Nat) (cm : Nat → Nat) (nd : Node) : Option Nat :=
+  cmrNodeG update2 ivTable cmrWord jetCmr cm nd
+
+def cmrsGoG (node : (Nat → Nat) → Node → Option Nat) : List Node → Array Nat → Option (Array Nat)
   | [], acc => some acc
   | nd :: rest, acc =>
-    match cmrNode jetCmr (fun i => acc.getD i 0) nd with
-    | some c => cmrsGo jetCmr rest (acc.push c)
+    match node (fun i => acc.getD i 0) nd with
+    | some c => cmrsGoG node rest (acc.push c)
     | none => none
+
+def cmrsGo (jetCmr : String → Option Nat) : List Node → Array Nat → Option (Array Nat) :=
+  cmrsGoG (cmrNode jetCmr)
 
 /-- commitment roots of all nodes of a plan -/
 def cmrs (jetCmr : String → Option Nat) (p : Plan) : Option (Array Nat) :=
